@@ -218,6 +218,7 @@ func runC05(c *run.Ctx, s *kit.Summary) {
 	if c.Replay == "" {
 		realTransportRuns(c, s, r)
 		cliRuns(c, s, r)
+		cliRepeatedRun(c, s, r)
 	}
 	if !raceChild && c.Replay == "" {
 		raceRun(c, s)
